@@ -68,6 +68,13 @@ def writeRows (lt : Str) (quoteAll : Bool) : List (List Str) → Str
 /-- what tablib's `export("csv")` writes for the records `_package(dicts=False)` hands it -/
 def writeCsv (records : List (List Str)) : Str := writeRows crlf false records
 
+/-- `str.replace("\r", "")` -/
+def dropCr (t : Str) : Str := t.filter (fun c => c != '\r')
+
+/-- the text `RowDataSheet.export(filename, "csv")` writes (rowdatasheet.py): tablib's CSV text with
+EVERY carriage return removed — the ones of the CRLF record ends and the ones inside cells. -/
+def rdsExportCsv (records : List (List Str)) : Str := dropCr (writeCsv records)
+
 /-! ### text-mode line iteration (`newline=""`) -/
 
 /-- `cur` = the current line so far, REVERSED; `prevCR` = its last character is `\r`.
